@@ -66,6 +66,13 @@ Definition init_table (raw : list (string * string * list string)) : list rule :
 (* the table the code uses now: init applied to the polygonJSON literal re-read from the source *)
 Definition RT : list rule := init_table poly_json_rules.
 
+(* the table the code HAS at run time: the dump of polyConditions after the code's own init()
+   (GenPolygon.poly_runtime_rules, printed by a program run against /repo at translation time);
+   conditions decoded, value lists left exactly as dumped *)
+Definition raw_rule (r : string * string * list string) : rule :=
+  let '(k, c, vs) := r in mkRule k (decode_cond c) vs.
+Definition runtime_table : list rule := map raw_rule poly_runtime_rules.
+
 (* ---- sort.SearchStrings(a, x) = sort.Search(len(a), func(i) { return a[i] >= x })
      i, j := 0, n
      for i < j { h := int(uint(i+j) >> 1); if !f(h) { i = h + 1 } else { j = h } }
